@@ -61,9 +61,25 @@ func c12Ops() []histOp {
 	}
 }
 
-func c12Judge(c *Ctx, cs *Case) { histJudge(c, cs, 3) }
+func c12Judge(c *Ctx, cs *Case) {
+	if cs.Gen == "repl-objects" {
+		c20Judge(c, cs)
+		return
+	}
+	histJudge(c, cs, 3)
+}
 
 func c12Run(c *Ctx) {
+	// interactive mode: an echoed object is shown as it is when its statement runs, not as the line leaves it
+	for _, line := range []string{
+		Var("o", "{a: 1}") + " o; o.b = 2; o; " + BI("delete", "o", `"a"`) + "; " + BI("keys", "o") + "; o;",
+		Var("p", "{n: 0}") + " " + Var("q", "p") + " q; p.n = 5; q; q.m = [1]; p; " + Print("p") + " p.m[0] = 2; q;",
+		Var("rows", "[{k: 1}]") + " rows; rows[0].k = 2; rows; rows[0];",
+	} {
+		if c.Mine() {
+			c12Judge(c, &Case{Gen: "repl-objects", Src: line + "\n" + Print("1 + 1") + "\n" + line, X: map[string]string{"final_newline": "1", "all_self": "1"}})
+		}
+	}
 	ops := c12Ops()
 	pre := c12Prelude()
 	emit := func(gen string) func(seq []int) {
@@ -106,6 +122,8 @@ func c12Run(c *Ctx) {
 		c12Judge(c, cs)
 	}
 	for _, src := range []string{
+		// a loop body whose only declarations are declaration lists is a scope of its own in every round
+		Lines(Var("items", "[{n: 1}, {n: 2}, {n: 3}]"), For(Var("i", "0"), "i < 3", "i = i + 1", "{ "+K["var"]+" item = items[i], alias = item; alias.n = alias.n * 10; }"), Print("items"), Var("o", "{v: 0}"), Var("r", "0"), While("r < 3", "{ r = r + 1; "+K["var"]+" cur = o, step = r; cur.v = cur.v + step; }"), Print("o")),
 		// a store through any expression that yields the object reaches the object: an element of an array literal,
 		// the operand a logical operator hands back, a call result, a parenthesised place
 		Lines(Var("left", "{hits: 0}"), Var("right", "{hits: 0}"), Var("side", "1"), "[left, right][side].hits = 5;", "[left, right][0].hits = [left, right][1].hits + 1;", Print("left"), Print("right"), Var("prefs", "nil"), Var("defaults", `{mode: "dev"}`), `(prefs `+K["or"]+` defaults).mode = "prod";`, Print("defaults"),
